@@ -39,7 +39,7 @@ func checkC05(c *Ctx) (int, error) {
 	rng := rand.New(rand.NewSource(c.Seed))
 	n := 10
 	if c.Tier == "thorough" {
-		n = 80
+		n = 200
 	}
 	suffixes := []int{0, 1, 7, 8, 9, 100, 5000}
 	var cases []*RCase
@@ -94,7 +94,7 @@ func checkC11(c *Ctx) (int, error) {
 	rng := rand.New(rand.NewSource(c.Seed))
 	n := 8
 	if c.Tier == "thorough" {
-		n = 60
+		n = 150
 	}
 	var cases []*RCase
 	id := 0
@@ -158,7 +158,7 @@ func checkC15(c *Ctx) (int, error) {
 	rng := rand.New(rand.NewSource(c.Seed))
 	limit, n := 600, 4
 	if c.Tier == "thorough" {
-		limit, n = 6000, 10
+		limit, n = 6000, 24
 	}
 	var cases []*RCase
 	id := 0
@@ -213,7 +213,7 @@ func checkC13(c *Ctx) (int, error) {
 	rng := rand.New(rand.NewSource(c.Seed))
 	n := 6
 	if c.Tier == "thorough" {
-		n = 40
+		n = 100
 	}
 	var cases []*RCase
 	id := 0
